@@ -303,6 +303,20 @@ def gen_endless(ctx, g):
     return c
 
 
+def gen_big_order(ctx, g):
+    """ORDER BY over MANY records with few distinct keys, under a small TOP / LIMIT: ties in input order at every size (a sorter that
+    prunes its buffer as it goes must still number the entries in arrival order)"""
+    r = ctx.rng
+    n = r.choice([1030, 1500, 2600]) if ctx.tier == 'quick' else r.choice([1023, 1024, 1025, 1100, 2048, 2600, 4100, 6000])
+    A = [[str(i), r.choice(['k', 'm', 'z'])] for i in range(n)]
+    qa = {'kind': ('select', [('expr', ('fld', 'a', 0)), ('expr', ('fld', 'a', 1))]), 'where': None, 'join': None,
+          'order': ([('fld', 'a', 1)], r.random() < 0.5), 'distinct': 0, 'top': r.choice([1, 5, 7]), 'top_spelling': r.choice(['top', 'limit'])}
+    c = {'qa': qa, 'A': A, 'B': None, 'tags': ['big']}
+    c['qjs'] = qmodel.Renderer('js', r).query(qa)
+    c['q'] = c['qjs']
+    return c
+
+
 def js_leg(ctx, theorem, focus, n):
     """the JavaScript leg of an engine property (C01-C07 anchor rbql-js/rbql.js too): language-neutral queries of the given
     shape through rbql-js against the same reference model"""
@@ -310,6 +324,7 @@ def js_leg(ctx, theorem, focus, n):
     cases = [gen_case(ctx, g, focus) for _ in range(n)]
     if focus == 'order':
         cases += [gen_endless(ctx, g) for _ in range(max(20, n // 10))]
+        cases += [gen_big_order(ctx, g) for _ in range(3 if ctx.tier == 'quick' else 24)]
     args, model, exp, got = evaluate(ctx, cases)
     ctx.compare([dict(c, impl='js') for c in cases], exp, got, theorem + ' (rbql-js leg)', rel=rel, describe=describe, shrink=shrink,
                 corrupt=lambda e: {'events': [['W', ['CANARY'], True]], 'pulls': 0, 'error': None})
@@ -333,7 +348,7 @@ def evaluate(ctx, cases):
 
 
 def shrink(c, e, g):
-    if 'endless' in c.get('tags', ()):
+    if 'endless' in c.get('tags', ()) or 'big' in c.get('tags', ()):
         return c, e, g
     cur = c
     budget = 30
